@@ -86,7 +86,7 @@ def step1 (st : St) (line : String) : St × String :=
      | _, _ => (none, "bad-op"))
   | ["keytype", t] =>    -- the script's keys are of this type from now on (routing is not fixed by the property)
     (match st with
-     | some _ => (st, if ["int", "int64", "uint64", "intcrc", "int64crc", "uint64crc", "string"].contains t then "ok" else "bad-op")
+     | some _ => (st, if ["int", "int64", "uint64", "intcrc", "int64crc", "uint64crc", "string", "strmix"].contains t then "ok" else "bad-op")
      | none => (st, "bad-op"))
   | ["queued", k, m, "-"] =>
     (match st, parseKey k, natOf m with
